@@ -11,7 +11,7 @@ ID = "C12"
 ENGINE = "E2 rewrite-graph BFS"
 RULE = ("states = (basis, points, charges, moment origin) rigidly moved from a seed; transitions = r -> R r + d with R "
         "from ALL 48 signed axis permutations (complete finite group) and 3 seed-derived generic rotations (proper and "
-        "improper), d from {0, generic ~1.5 bohr, generic 50 bohr}; depth 2 (a motion applied to an already moved system "
+        "improper), d from {0, generic ~1.5 bohr, generic 50 bohr}; plus translations by 1e3 and 1e4 bohr of a moderate-exponent seed (tolerance 1e-10 + 1000 eps |d| alpha_max, the conditioning of absolute coordinates); depth 2 (a motion applied to an already moved system "
         "must obey the same law). Laws per edge: function values at moved points = D(R) x values; integral arrays "
         "conjugated by the shell representation matrices D on every basis index; gradients/momentum/force rotate as "
         "vectors, Hessians/stress tensor as tensors, moments (all orders of total degree <= 2, about the moved origin) as "
@@ -29,13 +29,13 @@ SEEDS = [[(1, "cartesian"), (4, "spherical")], [(2, "spherical"), (0, "cartesian
 
 def bounds(tier):
     return {"seeds": len(SEEDS) if tier != "quick" else 2, "group_elements": 48, "generic_rotations": 3,
-            "translations": ["0", "generic", "50 bohr"],
+            "translations": ["0", "generic", "50 bohr"], "very_far_translations": "1e3 and 1e4 bohr on a moderate-exponent seed (conditioning-limited tolerance)",
             "depth1": "48 x 3 + 3 x 3 = 153 motions" if tier != "quick" else "48 x 1 (translation class cycling) + 3",
             "depth2": "5 motions from every depth-1 state" if tier != "quick" else "5 motions from 6 depth-1 states"}
 
 
 def configs(tier, seed):
-    out = []
+    out = [{"seed": -1, "shard": 0, "tier": tier, "kind": "veryfar"}]
     for si in (range(len(SEEDS)) if tier != "quick" else [4, 3]):  # quick: g(cart)+f(sph); s+d+p
         # shard the group over workers: 6 shards of 8 elements
         for shard in range(6):
@@ -45,6 +45,39 @@ def configs(tier, seed):
 
 def cost(cfg):
     return 10 + cfg["seed"]
+
+
+def veryfar(o, cfg):
+    """translations by 1e3 and 1e4 bohr (with one rotation) of a seed whose exponents are <= 3"""
+    from ..ref.shells import RefShell
+
+    cs = al.molecule_centers(3, tag="c12-far")
+    shells = [RefShell(1, cs[0], (0.5, 2.2), [[0.6, -0.3], [0.5, 0.8]], "spherical"),
+              RefShell(2, cs[1], (0.9,), [[1.0]], "cartesian"), RefShell(0, cs[2], (3.0, 0.4), [[0.3], [0.7]], "cartesian")]
+    c0 = np.array(cs[0])
+    env = {"points": np.array([c0 + np.array([0.0, 0.3, -0.2]), c0 + np.array([0.05, 0.0, 0.0])]
+                              + [np.array(hvec("c12f-pt%d" % i, 3, -1.5, 1.5)) for i in range(3)]),
+           "charge_coords": np.array([c0, np.array(cs[1]), np.array(hvec("c12f-q", 3, -2, 2))]),
+           "charges": np.array([1.0, 6.0, -2.0]), "origin": np.array(hvec("c12f-o", 3, -1, 1)), "orders": np.array(ORD2)}
+    iq, dq = quantities()
+    for k in ("eri_chemist",):
+        iq.pop(k)
+    amax = 3.0
+    seed = System(shells, None, env)
+    u = np.array(hvec("c12f-u", 3, 0.3, 1.0)) * np.array([1, -1, 1])
+    u /= np.linalg.norm(u)
+    R0 = rep.signed_permutations()[9]
+    for dist in (1.0e3, 1.0e4):
+        for R in (np.eye(3), R0):
+            d = dist * u
+            tol = 1e-10 + 1000 * np.finfo(float).eps * dist * amax
+            ex = Explorer(o, iq, dq, tol=tol, eri_cap=0, dens_every=1)
+            ex.dq_tol = tol
+            nxt = move(seed, R, d)
+            ex.check_edge(seed, nxt, rep.basis_rep(seed.shells, R), "translation by %g bohr" % dist, laws(R, d, reach(nxt)))
+            o.notes["bfs_states"] = o.notes.get("bfs_states", 0) + ex.states
+            o.notes["bfs_edges"] = o.notes.get("bfs_edges", 0) + ex.edges
+    return o
 
 
 def moment_rep(R):
@@ -159,6 +192,8 @@ def evaluate(cfg):
     gb()
     o = Obs(cfg)
     quick = cfg.get("tier") == "quick"
+    if cfg.get("kind") == "veryfar":
+        return veryfar(o, cfg)
     spec = SEEDS[cfg["seed"]]
     cs = al.molecule_centers(len(spec), tag="c12-mol")
     shells = [al.ladder_shell(i, cs[k], t, lmax=4) for k, (i, t) in enumerate(spec)]
